@@ -70,6 +70,11 @@ def stir_link_inputs(variant):
 
 def write_harness_ninja(targets):
     """targets: list of (harness name, variant, source).  Writes build/harness.ninja."""
+    extra_rt = {}
+    for pid, c in CHECKS.items():
+        for part in c["parts"]:
+            if part.get("extra_rt"):
+                extra_rt[(part["harness"], part["variant"])] = part["extra_rt"]
     lines = ["ninja_required_version = 1.5", "builddir = " + os.path.join(BUILD, "hb"), ""]
     lines += ["rule cxx", "  command = c++ -std=gnu++17 $flags -MMD -MF $out.d -c $in -o $out", "  depfile = $out.d",
               "  deps = gcc", "  description = CXX $out", ""]
@@ -85,7 +90,7 @@ def write_harness_ninja(targets):
         if variant == "omp":
             flags += " -DSIM_TSAN"
         objs = []
-        for rt in v["simrt"]:
+        for rt in v["simrt"] + extra_rt.get((name, variant), []):
             o = os.path.join(BUILD, "hb", variant, rt + ".o")
             if (variant, rt) not in done_rt:
                 done_rt.add((variant, rt))
@@ -320,7 +325,7 @@ def cmd_check(args):
         exe = os.path.join(BUILD, "bin", r["_part"])
         path = r.get("replay", "")
         rc, out = replay_fresh(pid, exe, path) if path else (2, "")
-        crashlike = r.get("oracle") in ("crash", "hang")
+        crashlike = r.get("oracle") in ("crash", "hang") or str(r.get("oracle")).startswith("crash:")
         if rc == 1 or (crashlike and rc not in (0, 2, 3)):
             reported.add(key)
             confirmed += 1
